@@ -30,6 +30,7 @@ ASSUMPTIONS = [
     "only manifold tables are generated (decided by the harness's set model)",
     "for multiply-shared edges between the same two faces, face_face lists the neighbour once per shared edge",
 ]
+BOUNDS_NOTE = "plus an interpreted pass (NUMBA_DISABLE_JIT=1, spawned interpreters) over catalogue meshes and the subsets of one (quick) / four (thorough) of them"
 BOUNDS = {
     "quick": "(a) n_node<=5,n_face<=2,sizes 3..5; n_node<=4,n_face=3; (b) deviations<=1, subsets of meshes <=7 faces; (c) 720 orders x 3 meshes; (d) 6 meshes x 3 edge orders",
     "thorough": "(a) plus n_node=6,n_face=2,sizes 3..6 and n_node=5,n_face=3,triangles; (b) deviations<=2 (meshes <= 9 faces), subsets of meshes <=9 faces; (c) 720 orders x 6 meshes; (d) 12 meshes x 3 edge orders",
@@ -113,6 +114,15 @@ def _new():
 
 
 def run_case(case):
+    import os
+
+    if case.get("jit") == "off" and os.environ.get("NUMBA_DISABLE_JIT") != "1":
+        # interpreted numba kernels: a fresh interpreter with NUMBA_DISABLE_JIT=1 (the switch is read at import time)
+        from vf.core import subrun
+
+        r = subrun.run("vf.props.c03", [case], {"NUMBA_DISABLE_JIT": "1"}, nproc=1)[0]
+        r.pop("_case", None)
+        return _mark_jitoff(r)
     import uxarray as ux
 
     res = _new()
@@ -202,12 +212,12 @@ def run_case(case):
     if kind == "reader":
         from vf.alpha import dialects as D
 
-        for fmt, kw in (("mpas", {"optional": "all"}), ("mpas", {"optional": "minimal"}), ("mpas", {"optional": "all", "padding": "junk"}), ("icon", {})):
+        for fmt, kw in (("mpas", {"optional": "all"}), ("mpas", {"optional": "minimal"}), ("mpas", {"optional": "all", "padding": "junk"}), ("mpas", {"optional": "all", "padding": "repeat-last", "dtype": "int64"}), ("icon", {}), ("icon", {"dtype": "int64"})):
             if "only" in case and [fmt, kw] != case["only"]:
                 continue
             focus = {"kind": "reader", "mesh": case["mesh"], "only": [fmt, kw]}
             pool.fresh()
-            r = D.mpas(mesh, **kw) if fmt == "mpas" else D.icon(mesh)
+            r = D.mpas(mesh, **kw) if fmt == "mpas" else D.icon(mesh, **kw)
             if r is None:
                 continue
             try:
@@ -286,9 +296,40 @@ def run_case(case):
     raise ValueError(kind)
 
 
+def jitoff_cases(tier):
+    quick = tier == "quick"
+    names = ["mixedpatch", "cubesplit", "pyr5", "isolated", "tetra"] if quick else list(meshes.catalog())
+    out = [{"kind": "mesh", "mesh": n, "k": 0 if quick else 1, "jit": "off"} for n in names]
+    out += [{"kind": "subsets", "mesh": n, "jit": "off"} for n in (["cubesplit"] if quick else ["cubesplit", "prism", "pyr5", "tetra"])]
+    return out
+
+
+def _mark_jitoff(r):
+    for v in r.get("violations", []):
+        if ":jit-off:" not in v["sig"]:
+            v["sig"] = v["sig"].replace("c03:", "c03:jit-off:", 1)
+            v["msg"] = "[NUMBA_DISABLE_JIT=1] " + v["msg"]
+        if isinstance(v.get("focus"), dict):
+            v["focus"]["jit"] = "off"
+    return r
+
+
 def run(ctx):
     ctx.map(run_case, cases(ctx.tier))
+    # the same tables with the numba kernels interpreted (NUMBA_DISABLE_JIT=1), in spawned interpreters
+    from vf.core import subrun
+
+    results = subrun.run("vf.props.c03", jitoff_cases(ctx.tier), {"NUMBA_DISABLE_JIT": "1"}, nproc=min(8, ctx.nproc))
+    n = 0
+    for r in results:
+        c = r.pop("_case")
+        ctx.add(c, _mark_jitoff(r))
+        n += r["evaluations"]
+    ctx.extra["jit_off_pass"] = {"cases": len(results), "evaluations": n}
     from vf.core.runner import Vacuous
 
     if not ctx.axes.get("scope_sizes") or len(ctx.axes["scope_sizes"]) < 4:
         raise Vacuous("size mixes not exercised")
+
+
+BOUNDS = {k: v + "; " + BOUNDS_NOTE for k, v in BOUNDS.items()}
